@@ -451,25 +451,31 @@ func configExtra(t *tr) string {
 	b.WriteString("/-- a tag whose type has no resolver is left in place (`continue`) -/\ndef unregisteredTagSkipped : Bool := " + leanBool(unregisteredSkipped) + "\n")
 	b.WriteString("/-- `ResolveCustomTags` returns the resolver's error -/\ndef resolverErrorReturned : Bool := " + leanBool(resolverErrReturned) + "\n")
 
-	// envTokenResolver: `if !ok { return "", <error> }`
+	// envTokenResolver by what it returns on which path (area_config_env.go): layout-independent
 	envErr := false
+	var envPaths, envOsCalls []string
 	if er := findFunc(cu, "envTokenResolver"); er != nil {
-		ast.Inspect(er.Body, func(n ast.Node) bool {
-			if ifs, ok := n.(*ast.IfStmt); ok && cfSrc(cu, ifs.Cond) == "!ok" && len(ifs.Body.List) == 1 {
-				if r, ok := ifs.Body.List[0].(*ast.ReturnStmt); ok && len(r.Results) == 2 {
-					if id, isIdent := r.Results[1].(*ast.Ident); !isIdent || id.Name != "nil" {
-						envErr = true
-					}
+		var lookupParam bool
+		envPaths, envOsCalls, lookupParam = configEnvFacts(cu, er)
+		missErr, missNil := false, false
+		for _, pth := range envPaths {
+			if strings.HasPrefix(pth, "missing:") || strings.HasPrefix(pth, "always:") || strings.HasPrefix(pth, "?:") {
+				if strings.HasSuffix(pth, ",error") {
+					missErr = true
+				} else {
+					missNil = true
 				}
 			}
-			return true
-		})
-		if !strings.Contains(cfSrc(cu, er.Body), "os.LookupEnv(in)") {
-			gsFail(t, cu, er, "envTokenResolver: expected os.LookupEnv(in)")
+		}
+		envErr = missErr && !missNil
+		if !lookupParam {
+			gsFail(t, cu, er, "envTokenResolver: expected os.LookupEnv(<parameter>)")
 		}
 	} else {
 		t.errs = append(t.errs, "envTokenResolver not found")
 	}
+	b.WriteString("/-- `envTokenResolver`: every return as <path condition>:<value>,<error> (found / missing = the ok result of os.LookupEnv of the parameter) -/\ndef envResolverPaths : List String := " + leanStrList(envPaths) + "\n")
+	b.WriteString("/-- `envTokenResolver`: what it uses of package os -/\ndef envResolverOsCalls : List String := " + leanStrList(envOsCalls) + "\n")
 	b.WriteString("/-- `envTokenResolver`: an unset variable is an error -/\ndef envUnsetIsError : Bool := " + leanBool(envErr) + "\n")
 	// propertyTokenResolver: every return with a non-nil error, and the final return
 	var propErrs []string
